@@ -425,6 +425,9 @@ func run(c *vf.Ctx) {
 		}
 		b.validate(c, fmt.Sprintf("go-prng-limit%d", lim))
 	}
+
+	// ---- T: nested routable prefixes, as the router configures them ----
+	nestedStage(c)
 }
 
 func randRoute(rng *rand.Rand, relays []int) route {
